@@ -613,6 +613,15 @@ impl<Store: StorageData> DbImpl<Store> {
             self.aliases.remove_key(&mut self.storage, &old_alias)?;
         }
 
+        if let Some(old_id) = self.aliases.value(&self.storage, alias)?
+            && old_id != db_id
+        {
+            self.undo_stack.push(Command::InsertAlias {
+                id: old_id,
+                alias: alias.clone(),
+            });
+        }
+
         self.undo_stack.push(Command::RemoveAlias {
             alias: alias.clone(),
         });
@@ -666,12 +675,7 @@ impl<Store: StorageData> DbImpl<Store> {
     }
 
     pub(crate) fn insert_new_alias(&mut self, db_id: DbId, alias: &String) -> Result<(), DbError> {
-        self.undo_stack.push(Command::RemoveAlias {
-            alias: alias.clone(),
-        });
-        self.aliases.insert(&mut self.storage, alias, &db_id)?;
-
-        Ok(())
+        self.insert_alias(db_id, alias)
     }
 
     pub(crate) fn insert_node(&mut self) -> Result<DbId, DbError> {
